@@ -39,8 +39,16 @@ def hvalOp (checkRoundTrip : Bool) : List String → String
         if !(pre.isPrefixOf blk) || blk.drop (blk.length - 2) != CRLF then propfail "block-is-not-name-colon-value-CRLF"
         else
           let v := (blk.drop pre.length).take (blk.length - pre.length - 2)
-          match fieldOracle n blk with
-          | some e => propfail e
+          -- an over-long but foldable line (the recorded folding findings) is reported only when nothing else is wrong
+          let soft := "line-over-78-that-could-have-been-folded"
+          let fo := fieldOracle n blk
+          match fo with
+          | some e => if e != soft then propfail e else
+            if checkRoundTrip && Rfc2047Dec.decode v != r then propfail "reader-does-not-recover-the-text"
+            else
+              let m := encodeValue opts n.length r
+              if !nameOk strictNames n then "MISMATCH hname model=err"
+              else if m == v then propfail soft else mismatch "hval" m
           | none =>
             if checkRoundTrip && Rfc2047Dec.decode v != r then propfail "reader-does-not-recover-the-text"
             else
